@@ -18,7 +18,7 @@ theorem share_bound (w W : Dec) (a : Int) (hW : 0 < W.raw) (hw : 0 ≤ w.raw) (h
   have hn : 0 ≤ w.raw * a := Int.mul_nonneg hw ha
   have hP : (0:Int) < PREC := PREC_pos
   have hn2 : 0 ≤ w.raw * a * PREC * PREC := Int.mul_nonneg (Int.mul_nonneg hn (le_of_lt hP)) (le_of_lt hP)
-  unfold share Dec.truncateInt Dec.quo Dec.mulInt
+  unfold share Sunrise.Gen.KernelsSwap.split_share Dec.truncateInt Dec.quo Dec.mulInt
   simp only []
   rw [tquo_nonneg_eq hn2 (le_of_lt hW)]
   set t := w.raw * a * PREC * PREC / W.raw with ht
